@@ -18,6 +18,7 @@ import (
 	"strings"
 	"sync"
 	"sync/atomic"
+	"syscall"
 	"time"
 
 	"src.elv.sh/pkg/eval"
@@ -90,7 +91,54 @@ func newEvaler() (*eval.Evaler, *recorder) {
 	return ev, rc
 }
 
+// Race reports in which one access stack is inside evalModule -> PrepareEval
+// (compiling / allocating a module namespace before it is installed) are the
+// same defect as the unguarded module cache: the namespace is published to
+// other goroutines through an unsynchronised map, so the reader's accesses
+// race with the initialising writes. The top-frame signature does not show
+// that, so these reports are re-labelled with one named signature.
+var (
+	derivRaces  atomic.Int64
+	derivSample atomic.Value
+)
+
+const sigDerived = "race:module-namespace-published-through-unguarded-cache"
+
+func raceFilter(blk string) bool {
+	for i, para := range strings.Split(strings.TrimSpace(blk), "\n\n") {
+		if i > 1 {
+			break
+		}
+		if strings.Contains(para, "pkg/eval.evalModule()") && strings.Contains(para, "pkg/eval.(*Frame).PrepareEval()") {
+			derivRaces.Add(1)
+			if len(blk) > 6000 {
+				blk = blk[:6000]
+			}
+			derivSample.Store(blk)
+			return false
+		}
+	}
+	return true
+}
+
+func finish(e *mon.Env) {
+	if n := derivRaces.Load(); n > 0 {
+		smp, _ := derivSample.Load().(string)
+		e.AddViolation(sigDerived, fmt.Sprintf("%d race reports between the initialisation of a module namespace (evalModule -> PrepareEval) and a goroutine that obtained it from Evaler.modules without synchronisation", n),
+			map[string]any{"report": smp})
+	}
+}
+
 func childSetup(e *mon.Env) {
+	// The race runtime makes a process that reported races exit with status 66
+	// even after os.Exit(0); the framework would take that for a crash and skip
+	// a case. Re-exec once with exitcode=0 appended to GORACE.
+	if g := os.Getenv("GORACE"); e.IsChild && g != "" && !strings.Contains(g, "exitcode=") {
+		if exe, err := os.Executable(); err == nil {
+			os.Setenv("GORACE", g+" exitcode=0")
+			syscall.Exec(exe, os.Args, os.Environ())
+		}
+	}
 	libDir = filepath.Join(e.Scratch, "c39lib")
 	if err := writeLib(libDir); err != nil {
 		fmt.Fprintln(os.Stderr, "c39: cannot write module library:", err)
@@ -517,15 +565,18 @@ func Spec() *mon.Spec {
 			"ops touching a module that >= 2 goroutines may first-import concurrently are compared too, but a difference there is attributed to the known module-cache finding (signature use-concurrent-module-cache:*), not to a new violation",
 			"process-global state (cwd, umask) is not touched; externals are not run",
 		},
-		ChildSetup: childSetup,
+		ChildSetup: childSetup, RaceFilter: raceFilter, Finish: finish,
 		Phases: []mon.Phase{
-			{Name: "mixed2", Quick: 48, Thorough: 1500, Run: runBatch(modeMixed), GoMaxProcs: 2, Timeout: 300 * time.Second},
-			{Name: "mixed8", Quick: 48, Thorough: 1500, Run: runBatch(modeMixed), GoMaxProcs: 8, Timeout: 300 * time.Second},
-			{Name: "storm4", Quick: 48, Thorough: 1000, Run: runBatch(modeUseStorm), GoMaxProcs: 4, Timeout: 300 * time.Second},
-			{Name: "storm16", Quick: 24, Thorough: 500, Run: runBatch(modeUseStorm), GoMaxProcs: 16, Timeout: 300 * time.Second},
-			{Name: "globals4", Quick: 48, Thorough: 1500, Run: runBatch(modeGlobalStorm), GoMaxProcs: 4, Timeout: 300 * time.Second},
-			{Name: "globals16", Quick: 24, Thorough: 500, Run: runBatch(modeGlobalStorm), GoMaxProcs: 16, Timeout: 300 * time.Second},
+			{Name: "mixed2", Quick: 20, Thorough: 1200, Run: runBatch(modeMixed), GoMaxProcs: 2, Timeout: 300 * time.Second},
+			{Name: "mixed8", Quick: 20, Thorough: 1200, Run: runBatch(modeMixed), GoMaxProcs: 8, Timeout: 300 * time.Second},
+			{Name: "storm4", Quick: 16, Thorough: 800, Run: runBatch(modeUseStorm), GoMaxProcs: 4, Timeout: 300 * time.Second},
+			{Name: "storm16", Quick: 8, Thorough: 400, Run: runBatch(modeUseStorm), GoMaxProcs: 16, Timeout: 300 * time.Second},
+			{Name: "globals4", Quick: 16, Thorough: 1000, Run: runBatch(modeGlobalStorm), GoMaxProcs: 4, Timeout: 300 * time.Second},
+			{Name: "globals16", Quick: 8, Thorough: 400, Run: runBatch(modeGlobalStorm), GoMaxProcs: 16, Timeout: 300 * time.Second},
 		},
-		Floors: map[string]int{},
+		Floors: map[string]int{"batches": 60, "ops": 1200, "ops_overlapping_another": 600, "concurrent_ops": 4,
+			"op_eval": 600, "op_eval-private": 40, "op_call": 20, "op_check": 40, "op_extend": 20, "op_delete": 5, "op_scan": 100,
+			"contended_modules": 20, "ops_touching_contended_module": 40, "pause_hook_hits": 40,
+			"flavour_preloaded": 4, "flavour_disjoint": 10, "flavour_contended": 10, "distinct_nontrivial": 60},
 	}
 }
